@@ -423,17 +423,28 @@ class Outcome:
         for s, (k, c) in sorted(self.known.items()):
             print(f"KNOWN-FINDING: property={self.prop} {k.get('what', s)} [signature={s}; seen {c}x]")
         seen = set()
+        per_class = {}
         for sig, path, text in self.violations:
-            if len(seen) < 20:
+            k = re.split(r":(?=[^ ])|\n", sig)[0][:140]
+            per_class[k] = per_class.get(k, 0) + 1
+            # a few examples of every class of violation, at most 40 in all
+            if per_class[k] <= 3 and len(seen) < 40 and path not in seen:
                 print(f"VIOLATION property={self.prop} replay={path}")
-                print(f"  {text}"[:600])
-            seen.add(path)
+                print(f"  {text}"[:900])
+                seen.add(path)
         if self.violations:
             by = {}
             for sig, path, text in self.violations:
                 by[sig[:120]] = by.get(sig[:120], 0) + 1
-            for sig, n in sorted(by.items(), key=lambda kv: -kv[1])[:15]:
+            for sig, n in sorted(by.items(), key=lambda kv: -kv[1])[:8]:
                 print(f"  {n:5d} x {sig}")
+            cls = {}
+            for sig, path, text in self.violations:
+                k = re.split(r":(?=[^ ])|\n", sig)[0][:140]
+                cls[k] = cls.get(k, 0) + 1
+            print("  by class:")
+            for k, n in sorted(cls.items(), key=lambda kv: -kv[1])[:25]:
+                print(f"  {n:5d} x {k}")
             print(f"{self.prop}: {len(self.violations)} violation(s)")
             return 1
         print(f"{self.prop}: ok ({self.tier}, seed {self.seed}, {ev['wall_s']}s)")
